@@ -23,7 +23,7 @@ CHECKS = {
    engine="simnet+proptest",
    technique="property-based testing on a simulated network with an impostor: generated address->identity assignments, pinned/unpinned concurrent dials and handshake-phase loss; invariants over dial results, listings, events and served requests",
    text="Honest networks plus a raw-QUIC impostor replaying certificates; concurrency of dials and loss bursts are generated. Oracle is one-directional where the statement is (Ok => ...), Err always allowed under loss. Exploration.",
-   note="Trusted: fabric + paused clock, rustls/quinn. Self-dials excluded by construction (counted).",
+   note="Trusted: fabric + paused clock, rustls/quinn. Self-dials are included (the party reached is the dialer itself).",
    design="§4 C03"),
  "C04": dict(
    engine="proptest+simnet (+ real threads)",
